@@ -10,6 +10,7 @@ CONSTANTS
   History = TRUE
   DoEmit = FALSE
   Bug = "none"
+  Hist = 0
   Shape = "any"
 SYMMETRY Sym
 INVARIANT TypeOK
